@@ -1,7 +1,7 @@
 #!/bin/bash
 # process_seed.sh <ID>: patched scratch copy of /repo from the agent's patch, all checks against it, and confirmation in the worktree.
 ID="$1"
-WT=/tmp/seed/$ID
+WT=${SEEDBASE:-/tmp/seed}/$ID
 SRC=/tmp/seedsrc/$ID
 mkdir -p /tmp/seedsrc; rm -rf "$SRC"
 rsync -a --exclude target --exclude .git /repo/ "$SRC/" && (cd "$SRC" && patch -p1 -s < "$WT/seed/patch.diff" && find . -name '*.rs' -o -name '*.toml' | xargs touch) || { echo "PATCH FAILED"; exit 1; }
